@@ -283,3 +283,98 @@ def run_makefile(text, target='all', stubs=('prog',), extra_env=None, files=None
                            'W': rd('W').decode('utf-8', 'surrogateescape')}, argv))
         return {'rc': r.returncode, 'stderr': r.stderr.decode(errors='replace')[-400:],
                 'calls': calls}
+
+
+# ------------------------------------------------------------------ make: names in rule lines
+
+def _parse_db(out):
+    """file entries of `make -p`: {name: prerequisite-text or None}"""
+    files = {}
+    sec = False
+    prev_comment = ''
+    for line in out.split('\n'):
+        if line.startswith('# Files'):
+            sec = True
+            continue
+        if line.startswith('# files hash-table stats') or line.startswith('# VPATH'):
+            sec = False
+        if sec and line.endswith(': VPXMARK'):
+            files[line[:-len(': VPXMARK')]] = 'VPXMARK'
+            continue
+        if sec and line.startswith('# ') and line.endswith(':') and line != '# Not a target:':
+            files[line[:-1]] = None      # a file whose name starts with '# '
+            continue
+        if not sec or not line or line[0] == '\t' or line.startswith('# ') or line == '#':
+            continue
+        k = line.rfind(':')
+        if line.endswith(':'):
+            files[line[:-1]] = None
+        else:
+            k = line.find(': ')
+            if k >= 0:
+                files[line[:k]] = line[k + 2:]
+    return files
+
+
+def real_make_rule_names(word, position, decoys=(), prelude=''):
+    """Names GNU Make derives from `word` written in a rule line.
+
+    position 'target':   `<word>: VPXMARK`      -> list of targets of that rule
+    position 'prereq':   `VPXT: <word>`         -> list of prerequisites
+    position 'order':    `VPXT: | <word>`       -> list of order-only prerequisites
+    Returns sorted list of names, or ('error', msg)."""
+    if not _encodable(word):
+        return ('skip', '')
+    with Scratch() as sc:
+        for d in decoys:
+            sc.write(os.path.join('d', d), '')
+        os.makedirs(sc.path('d'), exist_ok=True)
+        if position == 'target':
+            text = word + ': VPXMARK\n'
+        elif position == 'prereq':
+            text = 'VPXT: ' + word + '\n'
+        else:
+            text = 'VPXT: | ' + word + '\n'
+        mk = sc.write('mk', prelude + text)
+        r = subprocess.run([MAKE, '-rR', '-pn', '-f', mk, '-C', sc.path('d')],
+                           capture_output=True, timeout=30, env={'PATH': '/usr/bin:/bin',
+                                                                 'HOME': '/nonexistent-home',
+                                                                 'LC_ALL': 'C.UTF-8'})
+        out = r.stdout.decode('utf-8', 'surrogateescape')
+        err = r.stderr.decode('utf-8', 'replace')
+        if '***' in err and 'No rule to make' not in err:
+            return ('error', err.strip()[:150])
+        files = _parse_db(out)
+        names = []
+        for k, v in files.items():
+            if k in (mk, '.DEFAULT', '.SUFFIXES', 'VPXMARK'):
+                continue
+            if position == 'target':
+                if v == 'VPXMARK':
+                    names.append(k)
+            else:
+                if k != 'VPXT':
+                    names.append(k)
+        return sorted(names)
+
+
+def check_rmake_rule_words(words, position, workers=16):
+    """model vs real make for `aa <word> zz` in a target / prerequisite list"""
+    agree = declined = 0
+    bad = []
+
+    def one(w):
+        m = rmake.rule_words('aa ' + w + ' zz', position)
+        if m is None or len(set(m)) != len(m):
+            return w, None, None
+        r = real_make_rule_names('aa ' + w + ' zz', position)
+        return w, sorted(set(m)), (sorted(set(r)) if isinstance(r, list) else r)
+    with ThreadPoolExecutor(workers) as ex:
+        for w, m, real in ex.map(one, words):
+            if m is None or (isinstance(real, tuple) and real[0] == 'skip'):
+                declined += 1
+            elif real == m:
+                agree += 1
+            else:
+                bad.append((w, m, real))
+    return agree, declined, bad
